@@ -128,6 +128,23 @@ def run(chk):
     validate(chk, tpath, "random long streams")
     os.remove(tpath)
 
+    # 5. unbounded payload length (thorough tier): Apalache discharges the inductive invariant of HidInd.tla.
+    #    A stall or tool failure is a note, never a verdict; a counterexample is a violation of the model.
+    if thorough:
+        apa = os.path.join(w, "apalache")
+        ok = 0
+        for args in (["--inv=IndInv", "--length=0"], ["--init=IndInit", "--inv=IndInv", "--length=1"]):
+            p = vlib.sh(["timeout", "900", "apalache-mc", "check"] + args + ["--out-dir=" + apa, "HidInd.tla"], cwd=vlib.SPEC, check=False, timeout=1000)
+            out = p.stdout or ""
+            if "The outcome is: NoError" in out:
+                ok += 1
+            elif "The outcome is: Error" in out:
+                chk.violation({"inv": "model:HidInd.IndInv"}, "Apalache found the inductive invariant of HidInd.tla violated (%s)" % " ".join(args),
+                              {"kind": "apalache", "out": out[-3000:]})
+            else:
+                chk.note("Apalache did not finish (%s): %s" % (" ".join(args), out[-200:].replace("\n", " ")))
+        chk.cov["apalache_obligations_discharged"] = ok
+
     chk.cov["distinct_nontrivial"] = nbeh + chk.cov["sender_lengths"] + runs
     chk.cov["rule"] = ("distinct = exported interleavings (each a different schedule/plan) + distinct payload lengths + random runs; "
                        "non-trivial = at least one message needs reassembly or a boundary length is hit")
